@@ -4,6 +4,7 @@ import (
 	"crypto/aes"
 	"crypto/cipher"
 	"crypto/des"
+	"crypto/md5"
 	"crypto/rand"
 	"crypto/rsa"
 	"crypto/sha1"
@@ -82,6 +83,9 @@ type EncSpec struct {
 	// SymLen, when > 0, makes the wrapped content key that many bytes long (the data is then encrypted under a
 	// key of the proper length that nobody can recover: a sender error, or a probe).
 	SymLen int
+	// PlainPrefix is written in front of the serialised assertion before it is encrypted (a byte order mark, an
+	// XML declaration, white space, a comment).
+	PlainPrefix string
 }
 
 func (e *EncSpec) String() string {
@@ -118,6 +122,23 @@ func digestHash(d *string) (hash.Hash, error) {
 		return sha256.New(), nil
 	case DigSHA512:
 		return sha512.New(), nil
+	}
+	// any other identifier: by the hash its fragment names in the XML-DSig / XML-Enc registries
+	if i := strings.LastIndex(*d, "#"); i >= 0 {
+		switch strings.ToLower((*d)[i+1:]) {
+		case "sha1":
+			return sha1.New(), nil
+		case "sha224":
+			return sha256.New224(), nil
+		case "sha256":
+			return sha256.New(), nil
+		case "sha384":
+			return sha512.New384(), nil
+		case "sha512":
+			return sha512.New(), nil
+		case "md5":
+			return md5.New(), nil
+		}
 	}
 	return nil, fmt.Errorf("digest %q", *d)
 }
